@@ -1,7 +1,363 @@
-//! stub
-use serde_json::Value;
-use crate::engine::Ctx;
-pub const RULE: &str = "";
-pub const ASSUMPTIONS: &[&str] = &[];
-pub fn run(_ctx: &Ctx) {}
-pub fn replay(_part: &str, _case: &Value) -> Result<(), String> { Err("not implemented".into()) }
+//! C02 — corrupted frames are rejected or decode to the original.
+
+use flipdot_core::{Address, Data, Frame, MsgType};
+use proptest::prelude::*;
+use serde::{Deserialize, Serialize};
+use serde_json::{json, Value};
+
+use crate::engine::{catch, h64, par_range, run_generated, show_bytes, Ctx, Stats};
+use crate::oracle::hex::{ref_encode, ref_shape};
+use crate::props::c01::{addr_strategy, byte_strategy, FrameCase};
+
+pub const RULE: &str = "for each generated valid frame (boundary-biased address/type/content, lengths biased small but including 255), with and without CRLF, the complete single-fault neighbourhood is enumerated: every position x every replacement byte 0..=255 (structural alphabet + 16 pseudo-random bytes for frames with more than 64 data bytes), every deletion, duplication, adjacent transposition of unequal characters and proper prefix; plus generated forgeries of the right shape whose length field or checksum is wrong (hex letters in random case). Oracle: decode = Err or Ok(original); forgeries must be Err; no panic. Non-trivial = a mutant that still has the documented shape (only the length/checksum logic can reject it) or that touches the terminator, and every forgery; distinct by (frame, crlf, operator, position, byte)";
+pub const ASSUMPTIONS: &[&str] = &["mutants are derived from the harness's own reference encoding of the frame (oracle/hex.rs), which C01 shows to be byte-identical to Frame::to_bytes"];
+
+#[derive(Serialize, Deserialize, Debug, Clone, Copy, PartialEq, Eq, Hash)]
+pub enum Mutation {
+    Sub { pos: usize, byte: u8 },
+    Del { pos: usize },
+    Dup { pos: usize },
+    Swap { pos: usize },
+    Prefix { len: usize },
+}
+
+#[derive(Serialize, Deserialize, Debug, Clone)]
+pub struct MutantCase {
+    pub frame: FrameCase,
+    pub crlf: bool,
+    pub mutation: Mutation,
+}
+
+const STRUCTURAL: &[u8] = b"0123456789ABCDEFabcdef:\r\nGg\x00\xff ";
+
+fn apply(enc: &[u8], m: Mutation, out: &mut Vec<u8>) -> bool {
+    out.clear();
+    match m {
+        Mutation::Sub { pos, byte } => {
+            if pos >= enc.len() || enc[pos] == byte {
+                return false;
+            }
+            out.extend_from_slice(enc);
+            out[pos] = byte;
+        }
+        Mutation::Del { pos } => {
+            if pos >= enc.len() {
+                return false;
+            }
+            out.extend_from_slice(&enc[..pos]);
+            out.extend_from_slice(&enc[pos + 1..]);
+        }
+        Mutation::Dup { pos } => {
+            if pos >= enc.len() {
+                return false;
+            }
+            out.extend_from_slice(&enc[..=pos]);
+            out.extend_from_slice(&enc[pos..]);
+        }
+        Mutation::Swap { pos } => {
+            if pos + 1 >= enc.len() || enc[pos] == enc[pos + 1] {
+                return false;
+            }
+            out.extend_from_slice(enc);
+            out.swap(pos, pos + 1);
+        }
+        Mutation::Prefix { len } => {
+            if len >= enc.len() {
+                return false;
+            }
+            out.extend_from_slice(&enc[..len]);
+        }
+    }
+    true
+}
+
+fn original(frame: &FrameCase) -> Frame<'static> {
+    Frame::new(Address(frame.addr), MsgType(frame.ty), Data::try_new(frame.data.clone()).expect("<= 255 bytes"))
+}
+
+fn encode(frame: &FrameCase, crlf: bool) -> Vec<u8> {
+    let mut e = ref_encode(frame.addr, frame.ty, &frame.data);
+    if crlf {
+        e.extend_from_slice(b"\r\n");
+    }
+    e
+}
+
+/// oracle for one mutant (no catch: the caller wraps)
+#[inline]
+fn judge(orig: &Frame<'static>, mutant: &[u8]) -> Result<(), String> {
+    match Frame::from_bytes(mutant) {
+        Err(_) => Ok(()),
+        Ok(f) if &f == orig => Ok(()),
+        Ok(f) => Err(format!(
+            "damaged frame {} was accepted as a different frame: {:?}",
+            show_bytes(mutant),
+            f
+        )),
+    }
+}
+
+fn touches_terminator(enc_len: usize, crlf: bool, m: Mutation) -> bool {
+    if !crlf {
+        return false;
+    }
+    let t = enc_len - 2;
+    match m {
+        Mutation::Sub { pos, .. } | Mutation::Del { pos } | Mutation::Dup { pos } => pos >= t,
+        Mutation::Swap { pos } => pos + 1 >= t,
+        Mutation::Prefix { len } => len >= t,
+    }
+}
+
+pub fn check_mutant(c: &MutantCase, st: &mut Stats) -> Result<(), String> {
+    let enc = encode(&c.frame, c.crlf);
+    let orig = original(&c.frame);
+    let mut buf = Vec::new();
+    if !apply(&enc, c.mutation, &mut buf) {
+        return Ok(()); // not a fault (identity)
+    }
+    st.eval();
+    match catch(|| judge(&orig, &buf)) {
+        Ok(r) => r.map_err(|m| format!("{m} (mutation {:?} of {})", c.mutation, show_bytes(&enc))),
+        Err(p) => Err(format!("decoder panicked on {}: {p}", show_bytes(&buf))),
+    }
+}
+
+#[derive(Serialize, Deserialize, Debug, Clone)]
+pub struct NeighbourhoodCase {
+    pub frame: FrameCase,
+    /// seed for the 16 extra substitution bytes used on long frames
+    pub extra_seed: u64,
+}
+
+/// Enumerate the complete single-fault neighbourhood of both encodings of the frame.
+pub fn check_neighbourhood(c: &NeighbourhoodCase, st: &mut Stats) -> Result<(), String> {
+    let orig = original(&c.frame);
+    let fh = h64(&c.frame);
+    let full = c.frame.data.len() <= 64;
+    let mut alphabet: Vec<u8> = if full { (0..=255u8).collect() } else { STRUCTURAL.to_vec() };
+    if !full {
+        for i in 0..16u64 {
+            alphabet.push(h64(&(c.extra_seed, i)) as u8);
+        }
+    }
+    for crlf in [false, true] {
+        let enc = encode(&c.frame, crlf);
+        let mut buf: Vec<u8> = Vec::with_capacity(enc.len() + 2);
+        let mut current: Option<Mutation> = None;
+        let mut n_eval = 0u64;
+        let mut shape_ids: Vec<u64> = vec![];
+        let r = catch(|| -> Result<(), String> {
+            let mut run = |m: Mutation, buf: &mut Vec<u8>, current: &mut Option<Mutation>| -> Result<(), String> {
+                if !apply(&enc, m, buf) {
+                    return Ok(());
+                }
+                *current = Some(m);
+                n_eval += 1;
+                judge(&orig, buf)?;
+                if ref_shape(buf).is_some() || touches_terminator(enc.len(), crlf, m) {
+                    shape_ids.push(h64(&(fh, crlf, m)));
+                }
+                Ok(())
+            };
+            for pos in 0..enc.len() {
+                for &b in &alphabet {
+                    run(Mutation::Sub { pos, byte: b }, &mut buf, &mut current)?;
+                }
+                run(Mutation::Del { pos }, &mut buf, &mut current)?;
+                run(Mutation::Dup { pos }, &mut buf, &mut current)?;
+                run(Mutation::Swap { pos }, &mut buf, &mut current)?;
+                run(Mutation::Prefix { len: pos }, &mut buf, &mut current)?;
+            }
+            Ok(())
+        });
+        st.evals(n_eval);
+        for id in shape_ids {
+            st.nontrivial(id);
+            st.class("mutant-shape-preserving-or-terminator");
+        }
+        match r {
+            Ok(Ok(())) => {}
+            Ok(Err(m)) => return Err(format!("{m} (crlf={crlf}, mutation {:?} of {})", current, show_bytes(&enc))),
+            Err(p) => {
+                return Err(format!(
+                    "decoder panicked on mutation {:?} of {} (crlf={crlf}): {p}",
+                    current,
+                    show_bytes(&enc)
+                ))
+            }
+        }
+    }
+    st.class(if full { "frame<=64:all-256-substitutions" } else { "frame>64:structural-substitutions" });
+    if st.want_sample() {
+        st.sample(json!({"frame": c.frame, "wire": String::from_utf8_lossy(&encode(&c.frame, true)), "faults": "complete single-fault neighbourhood"}));
+    }
+    Ok(())
+}
+
+#[derive(Serialize, Deserialize, Debug, Clone)]
+pub enum Forge {
+    /// declared length = true length + delta (mod 256), checksum made consistent with the forged length
+    Length { delta: u8 },
+    /// checksum = right checksum + delta (mod 256)
+    Checksum { delta: u8 },
+}
+
+#[derive(Serialize, Deserialize, Debug, Clone)]
+pub struct ForgeryCase {
+    pub frame: FrameCase,
+    pub forge: Forge,
+    pub crlf: bool,
+    pub case_seed: u64,
+}
+
+fn forge_bytes(c: &ForgeryCase) -> Vec<u8> {
+    let mut fields = vec![c.frame.data.len() as u8, (c.frame.addr >> 8) as u8, c.frame.addr as u8, c.frame.ty];
+    fields.extend_from_slice(&c.frame.data);
+    match c.forge {
+        Forge::Length { delta } => {
+            fields[0] = fields[0].wrapping_add(delta);
+            let sum = fields.iter().fold(0u8, |a, &b| a.wrapping_add(b));
+            fields.push(0u8.wrapping_sub(sum));
+        }
+        Forge::Checksum { delta } => {
+            let sum = fields.iter().fold(0u8, |a, &b| a.wrapping_add(b));
+            fields.push(0u8.wrapping_sub(sum).wrapping_add(delta));
+        }
+    }
+    let mut out = vec![b':'];
+    for (i, b) in fields.iter().enumerate() {
+        for (j, nib) in [b >> 4, b & 15].into_iter().enumerate() {
+            let lower = h64(&(c.case_seed, i, j)) & 1 == 1;
+            let ch = b"0123456789ABCDEF"[nib as usize];
+            out.push(if lower { ch.to_ascii_lowercase() } else { ch });
+        }
+    }
+    if c.crlf {
+        out.extend_from_slice(b"\r\n");
+    }
+    out
+}
+
+pub fn check_forgery(c: &ForgeryCase, st: &mut Stats) -> Result<(), String> {
+    let delta = match c.forge {
+        Forge::Length { delta } | Forge::Checksum { delta } => delta,
+    };
+    if delta == 0 {
+        return Ok(());
+    }
+    let bytes = forge_bytes(c);
+    st.eval();
+    st.nontrivial(h64(&bytes));
+    st.class(match c.forge {
+        Forge::Length { .. } => "forged-length",
+        Forge::Checksum { .. } => "forged-checksum",
+    });
+    if st.want_sample() {
+        st.sample(json!({"forgery": show_bytes(&bytes), "kind": format!("{:?}", c.forge)}));
+    }
+    match catch(|| Frame::from_bytes(&bytes).map(|f| format!("{f:?}"))) {
+        Ok(Err(_)) => Ok(()),
+        Ok(Ok(f)) => Err(format!(
+            "a frame whose {} was accepted: {} -> {f}",
+            match c.forge {
+                Forge::Length { .. } => "declared length disagrees with its data",
+                Forge::Checksum { .. } => "checksum does not match",
+            },
+            show_bytes(&bytes)
+        )),
+        Err(p) => Err(format!("decoder panicked on {}: {p}", show_bytes(&bytes))),
+    }
+}
+
+fn small_biased_data() -> impl Strategy<Value = Vec<u8>> {
+    prop_oneof![
+        10 => 0usize..=4,
+        6 => 5usize..=20,
+        2 => 21usize..=64,
+        1 => proptest::sample::select(vec![65usize, 128, 254, 255]),
+    ]
+    .prop_flat_map(|n| {
+        prop_oneof![
+            6 => proptest::collection::vec(byte_strategy(), n),
+            1 => Just(vec![0xFFu8; n]),
+            1 => Just(vec![0x00u8; n]),
+        ]
+    })
+}
+
+fn small_frame_strategy() -> impl Strategy<Value = FrameCase> {
+    (addr_strategy(), byte_strategy(), small_biased_data()).prop_map(|(addr, ty, data)| FrameCase { addr, ty, data })
+}
+
+pub fn run(ctx: &Ctx) {
+    // fixed, deterministic part: the protocol's own frames (every recognised message code) at a few addresses
+    let mut fixed: Vec<FrameCase> = vec![];
+    for addr in [0u16, 3, 0x7F, 0xFFFF, 0xABCD] {
+        fixed.push(FrameCase { addr, ty: 1, data: vec![] });
+        for b in [0xFFu8, 0x00, 0x55] {
+            fixed.push(FrameCase { addr, ty: 2, data: vec![b] });
+        }
+        for b in [0xA1u8, 0xA2, 0xA9, 0xAA, 0xA6, 0xA7] {
+            fixed.push(FrameCase { addr, ty: 3, data: vec![b] });
+        }
+        for b in [0x0Fu8, 0x0D, 0x07, 0x0C, 0x03, 0x01, 0x0B, 0x10, 0x13, 0x12, 0x11, 0x00, 0x08] {
+            fixed.push(FrameCase { addr, ty: 4, data: vec![b] });
+        }
+        for b in [0x95u8, 0x91, 0x96, 0x97, 0x93, 0x94] {
+            fixed.push(FrameCase { addr, ty: 5, data: vec![b] });
+        }
+        fixed.push(FrameCase { addr, ty: 6, data: vec![0] });
+        fixed.push(FrameCase { addr: addr & 0xFFF0, ty: 0, data: (0..16).map(|i| (i * 17) as u8).collect() });
+    }
+    par_range(ctx, "protocol-frames", fixed.len() as u64, |i, st| {
+        let c = NeighbourhoodCase { frame: fixed[i as usize].clone(), extra_seed: i };
+        check_neighbourhood(&c, st).map_err(|m| (serde_json::to_value(&c).unwrap(), m))
+    });
+    ctx.part_done("protocol-frames", true, json!("complete single-fault neighbourhood of every protocol message frame at 5 addresses"));
+
+    run_generated(
+        ctx,
+        "neighbourhood",
+        ctx.tier.pick(2_000, 60_000),
+        || (small_frame_strategy(), any::<u64>()).prop_map(|(frame, extra_seed)| NeighbourhoodCase { frame, extra_seed }),
+        |c, st| check_neighbourhood(c, st),
+    );
+
+    run_generated(
+        ctx,
+        "forgery",
+        ctx.tier.pick(300_000, 6_000_000),
+        || {
+            (
+                small_frame_strategy(),
+                prop_oneof![
+                    (1u8..=255).prop_map(|delta| Forge::Length { delta }),
+                    (1u8..=255).prop_map(|delta| Forge::Checksum { delta }),
+                ],
+                any::<bool>(),
+                any::<u64>(),
+            )
+                .prop_map(|(frame, forge, crlf, case_seed)| ForgeryCase { frame, forge, crlf, case_seed })
+        },
+        |c, st| check_forgery(c, st),
+    );
+}
+
+pub fn replay(part: &str, case: &Value) -> Result<(), String> {
+    let mut st = Stats::new();
+    match part {
+        "mutant" => {
+            let c: MutantCase = serde_json::from_value(case.clone()).map_err(|e| format!("bad case: {e}"))?;
+            check_mutant(&c, &mut st)
+        }
+        "forgery" => {
+            let c: ForgeryCase = serde_json::from_value(case.clone()).map_err(|e| format!("bad case: {e}"))?;
+            check_forgery(&c, &mut st)
+        }
+        _ => {
+            let c: NeighbourhoodCase = serde_json::from_value(case.clone()).map_err(|e| format!("bad case: {e}"))?;
+            check_neighbourhood(&c, &mut st)
+        }
+    }
+}
